@@ -21,10 +21,12 @@
   polynomial remainder `r` (exact Taylor expansion), piece by piece.
 
   NOT proved here (stated for the record):
-    * the analytic reading over ℝ, `computeIntegral a b = ∫ x in a..b, spline x` with the interval
-      integral of Mathlib: the theorems below give the algebraic content (a primitive which is
-      piecewise polynomial, continuous at the nodes, with formal derivative the interpolant), the
-      fundamental theorem of calculus is not invoked;
+    * the analytic reading over ℝ (missing; would need Mathlib's interval integral and the
+      fundamental theorem of calculus on each cell):
+        theorem integral_is_interval_integral {x : Vec ℝ} {n : Nat} (hx : StrictInc x n) (y d : Vec ℝ) (a b : ℝ) :
+            integral x y d n a b = ∫ t in a..b, (splineEval true x y d n t).1
+      the theorems below give its algebraic content (a primitive which is piecewise polynomial,
+      continuous at the nodes, vanishing at `x 0`, with formal derivative the interpolant);
     * uniqueness of the natural spline (the pivots are proved positive, hence the system has a
       unique solution, but this is not stated);
     * anything about rounding: `Float` only appears in the bit-exact correspondence.
